@@ -149,12 +149,12 @@ def walk (bs : List Byte) : Nat → Rd → Scan → Walk
       let fsz : Int := csize - 24                          -- (int) chunk_size: the identity in the range kept here
       if (r.indx : Int) + fsz > cacheLimit then .unmodelled else
       if fsz < 16 then .err else
-      let (tag, r) := rdLE bs r 2
-      let (ch, r) := rdLE bs r 2
-      let (sr, r) := rdLE bs r 4
-      let (_, r) := rdLE bs r 4
-      let (_, r) := rdLE bs r 2
-      let (bits, r) := rdLE bs r 2
+      match rdSeq bs [2, 2, 4, 4, 2, 2] r with              -- "224422"
+      | ([tagB, chB, srB, _, _, bitsB], r) =>
+      let tag := ofLE tagB
+      let ch := ofLE chB
+      let sr := ofLE srB
+      let bits := ofLE bitsB
       -- a short read here ends the scan at this iteration with no data chunk seen (or with an error from the fmt reader)
       if r.failed then (if s.dataoffset > 0 then .unmodelled else .err) else
       if tag == 1 ∨ tag == 3 then
@@ -168,6 +168,7 @@ def walk (bs : List Byte) : Nat → Rd → Scan → Walk
         let r := if (csize - 24) % 8 != 0 then skip bs r (8 - (csize - 24) % 8) else r
         fin r { s with haveFmt := true, tag := tag, ch := ch, sr := sr, bits := bits, bytew := 1 } 0
       else .unmodelled
+      | _ => .unmodelled
     else if marker == factH then
       fin (rdLE bs r 8).2 s 0
     else if marker == dataH then
